@@ -129,7 +129,7 @@ fn particle(voc: &Vocab, p: &Value, ind: usize, out: &mut String) {
     let pad = " ".repeat(ind);
     match s(p, "k") {
         Some("el") => {
-            let ty = p.get("ty").filter(|t| !t.is_null()).map_or(String::new(), |t| format!(" type=\"{}\"", xml_esc(&qname(voc, t))));
+            let ty = p.get("ty").filter(|t| t.get("k").is_some()).map_or(String::new(), |t| format!(" type=\"{}\"", xml_esc(&qname(voc, t))));
             out.push_str(&format!(
                 "{pad}<xs:element name=\"{}\"{ty}{}/>\n",
                 xml_esc(&voc.name_xml(s(p, "n").unwrap_or(""))),
@@ -175,7 +175,7 @@ fn attribute(voc: &Vocab, a: &Value, ind: usize, out: &mut String) {
 /// body of a complexType (content + attributes), shared by named types and anonymous element types
 fn complex_body(voc: &Vocab, c: &Value, ind: usize, out: &mut String) {
     let pad = " ".repeat(ind);
-    let has_base = c.get("base").is_some_and(|b| !b.is_null());
+    let has_base = c.get("base").is_some_and(|b| b.get("k").is_some());
     if has_base {
         out.push_str(&format!("{pad}<xs:complexContent>\n{pad}  <xs:extension base=\"{}\">\n", xml_esc(&qname(voc, &c["base"]))));
         for p in arr(c, "content") {
@@ -248,9 +248,9 @@ fn item(voc: &Vocab, it: &Value, out: &mut String) {
         Some("element") => {
             let name = xml_esc(&voc.name_xml(s(it, "n").unwrap_or("")));
             let xm = xmlns_attrs(voc, it);
-            if let Some(t) = it.get("ty").filter(|t| !t.is_null()) {
+            if let Some(t) = it.get("ty").filter(|t| t.get("k").is_some()) {
                 out.push_str(&format!("  <xs:element name=\"{name}\" type=\"{}\"{xm}/>\n", xml_esc(&qname(voc, t))));
-            } else if let Some(c) = it.get("inline").filter(|t| !t.is_null()) {
+            } else if let Some(c) = it.get("inline").filter(|t| t.get("content").is_some()) {
                 out.push_str(&format!("  <xs:element name=\"{name}\"{xm}>\n    <xs:complexType>\n"));
                 out.push_str(&doc_el(voc, c, "      "));
                 complex_body(voc, c, 6, out);
